@@ -277,18 +277,27 @@ def run(c, chk):
 
     # ---- R12.2 -------------------------------------------------------------------
     tokvals = sorted(v for v in T.values() if v not in (T['EOF'], T['ERR'], T['COMMENT']))
-    tokreg = model.lexcall.res
     for s in skip_states:
-        # the state's code must contain a use of tok on every path from its case label to the loop header
-        lbl = dict((v, l) for v, l in model.state_switch.cases).get(s)
-        if lbl is None:
-            continue
-        examined = state_examines_token(model, lbl, tokreg)
-        if examined:
-            chk.ok('R12.2', 'skipper state %d' % s, 'every path through its case compares the token before the state changes')
+        # a state examines its token iff what it does depends on the token: identical behaviour for every
+        # token class means the token was consumed blindly
+        outcomes = set()
+        for tok in tokvals:
+            for var in (0, 1, 2):
+                try:
+                    trs = model.transitions(s, tok, {'ignore': var, 'force_state': -1, 'level': 0})
+                except sym.AnalysisIncomplete:
+                    continue
+                for tr in trs:
+                    outcomes.add((tok, var, tr.kind, tr.next_state, tr.ret, str(tr.next.get('ignore')), tuple(tr.errors())))
+        per_tok = {}
+        for o in outcomes:
+            per_tok.setdefault(o[0], set()).add(o[1:])
+        distinct = set(frozenset(v) for v in per_tok.values())
+        if len(distinct) > 1:
+            chk.ok('R12.2', 'skipper state %d' % s, 'behaviour differs between token classes (%d distinct behaviours over %d classes)' % (len(distinct), len(per_tok)))
         else:
-            chk.fail('R12.2', 'blind-state:%d' % s, c.where(model.fn, model.fn.blocks[lbl].first_line()),
-                     'skipper state %d changes state (or recurses) without looking at the token it consumed' % s)
+            chk.fail('R12.2', 'blind-state:%d' % s, c.where(model.fn),
+                     'skipper state %d behaves identically for every token class: it consumes a token without looking at it' % s)
 
     # ---- R12.3 -------------------------------------------------------------------
     unk = [tr for tr in model.transitions(0, T['STR'])
